@@ -313,18 +313,21 @@ Proof.
   { intros s ->. rewrite map_app. cbn [map].
     assert (H1 : infix (p ++ err_str e) (join [10%N] (map (fname_prefix e) lines0 ++ [fname_prefix e (p ++ err_str e)]))).
     { eapply infix_trans; [|apply join_snoc_infix].
-      unfold fname_prefix. destruct (e_fn e) as [|[|a f]|]; try apply infix_refl.
+      unfold fname_prefix. destruct (fname_text (e_fn e)) as [[|a f]|]; try apply infix_refl.
       apply infix_app_l, infix_app_l, infix_refl. }
     split; [exact H1|].
     eapply infix_trans; [|exact H1]. apply infix_app_l, msg_in_str. }
-  unfold err_filename, fname_prefix in *. destruct (e_fn e) as [|[|a f]|] eqn:Ef; [| | |congruence]; cbn [bind truthy].
-  - eexists _, lines0. split; [reflexivity|]. split.
-    + now rewrite map_id.
-    + apply Hgen. now rewrite map_id.
+  assert (Hfn : err_filename e = Ok (fname_text (e_fn e))).
+  { unfold err_filename, fname_text. destruct (e_fn e); try reflexivity. congruence. }
+  rewrite Hfn. cbn [bind]. unfold fname_prefix in *.
+  destruct (fname_text (e_fn e)) as [[|a f]|]; cbn [truthy].
   - eexists _, lines0. split; [reflexivity|]. split.
     + now rewrite map_id.
     + apply Hgen. now rewrite map_id.
   - eexists _, lines0. split; [reflexivity|]. split; [reflexivity|]. now apply Hgen.
+  - eexists _, lines0. split; [reflexivity|]. split.
+    + now rewrite map_id.
+    + apply Hgen. now rewrite map_id.
 Qed.
 
 (* F27: an error object whose file name is not text does not render *)
@@ -536,7 +539,7 @@ Lemma not_constructed_plain id msg : ~ wf_err (new_pybtex_error id msg FnBad).
 Proof. intros [H _]. now apply H. Qed.
 
 (* what Scanner.required raises is one of the constructed errors *)
-Lemma scanner_required_constructed text lit (f : option str) id e :
+Lemma scanner_required_constructed text lit (f : pfname) id e :
   scanner_required text lit (fname_of f) id = inr e -> constructed e.
 Proof.
   unfold scanner_required.
